@@ -90,6 +90,10 @@ func c04Jobs(tier string) []string {
 	// be applied to the newer acknowledgement number
 	add("or=w,devs=z,mss=100,ws=-1,pwnd=300,pfix=1,w=500,b=1", 1)
 	add("or=sw,devs=zkhl,mss=100,ws=2,pwnd=1000,pfix=1,w=300+900,b=1", 2)
+	// our handshake ACK is lost and the peer repeats its SYN-ACK after the connection is up: the
+	// window field of a SYN is never scaled
+	add("or=w,devs=q,mss=100,ws=2,pwnd=300,w=2000,b=1", 1)
+	add("or=w,devs=qkwhl,mss=536,ws=7,pwnd=1000,w=536+3000,b=1", 2)
 	// a loss and a path-MTU report in one history (retransmissions must respect the new MTU)
 	add(base+",mss=88,ws=-1,w=88+89+440,ptb=68,b=2", 16)
 	if tier == "thorough" {
